@@ -144,12 +144,13 @@ impl Profile {
         Profile::custom([vec![0, 1], vec![0], vec![0, 1]], &[r])
     }
 
-    /// Files of four records: owner / TTL / class chains, `$ORIGIN` change before records 3 and 4.
+    /// Files of four records: owner / TTL / class chains, `$ORIGIN` change before record 3.
     pub fn chain4() -> Profile {
         let r1: &[(usize, &[u8])] = &[(D_OWNER, &[0, 1, 2]), (D_TTL, &[0, 1, 2]), (D_CLASS, &[0, 1])];
         let r2: &[(usize, &[u8])] = &[(D_OWNER, &[0, 1, 2, 3]), (D_TTL, &[0, 1, 2]), (D_CLASS, &[0, 1])];
         let r3: &[(usize, &[u8])] = &[(D_ORIGIN, &[0, 2]), (D_OWNER, &[0, 1, 2, 3]), (D_TTL, &[0, 1, 2]), (D_CLASS, &[0, 1])];
-        Profile::custom([vec![0], vec![0], vec![0, 1]], &[r1, r2, r3, r3])
+        let r4: &[(usize, &[u8])] = &[(D_OWNER, &[0, 1, 2, 3]), (D_TTL, &[0, 1, 2]), (D_CLASS, &[0, 1])];
+        Profile::custom([vec![0], vec![0], vec![0, 1]], &[r1, r2, r3, r4])
     }
 
     pub fn describe(&self) -> Value {
